@@ -711,3 +711,62 @@ def embed(ctx, prop, fn, rule, label, why, where=""):
     ctx.functions |= sub.functions
     ctx.files |= sub.files
     return sub
+
+
+def effective_argument(caller, call, callee, param):
+    """What the callee's parameter `param` stands for inside the callee for this call, in the caller's terms (canonical
+    text): the argument that is passed; or, when it is omitted / None and the callee re-binds the parameter at its start
+    (`p = E if p is None else p`, `if p is None: p = E`), the expression E with the callee's other parameters replaced by
+    the call's arguments. `bool(x)` is x and `getattr(x, 'a', <default>)` is `x.a` here (truth value of an attribute that
+    exists). None when it cannot be determined."""
+    params = [p for p in callee.params() if p not in ("self", "cls")]
+    actual = {}
+    for p_, a_ in zip(params, call.args):
+        actual[p_] = a_
+    for k_ in call.keywords:
+        if k_.arg:
+            actual[k_.arg] = k_.value
+    a = callee.node.args
+    dflt = dict(zip([x.arg for x in a.args][len(a.args) - len(a.defaults):], a.defaults))
+    dflt.update({x.arg: d for x, d in zip(a.kwonlyargs, a.kw_defaults) if d is not None})
+    passed = actual.get(param, dflt.get(param))
+    if passed is None:
+        return None
+    if not (isinstance(passed, ast.Constant) and passed.value is None):
+        return CT(U(passed))
+    # omitted / None: look for the re-binding
+    E = None
+    for st in callee.node.body:
+        if isinstance(st, ast.Assign) and len(st.targets) == 1 and U(st.targets[0]) == param and isinstance(st.value, ast.IfExp):
+            facts = norm_facts_of_test(st.value.test)
+            if facts == {(CT("%s is None" % param), True)} and U(st.value.orelse) == param:
+                E = st.value.body
+            elif facts == {(CT("%s is None" % param), False)} and U(st.value.body) == param:
+                E = st.value.orelse
+        elif isinstance(st, ast.If) and not st.orelse and norm_facts_of_test(st.test) == {(CT("%s is None" % param), True)}:
+            for s2 in st.body:
+                if isinstance(s2, ast.Assign) and U(s2.targets[0]) == param:
+                    E = s2.value
+        if E is not None:
+            break
+    if E is None:
+        return "None"
+
+    def simp(e):
+        while True:
+            if isinstance(e, ast.Call) and isinstance(e.func, ast.Name) and e.func.id == "bool" and len(e.args) == 1:
+                e = e.args[0]
+            elif isinstance(e, ast.Call) and isinstance(e.func, ast.Name) and e.func.id == "getattr" and len(e.args) in (2, 3) \
+                    and isinstance(e.args[1], ast.Constant) and isinstance(e.args[1].value, str):
+                e = ast.Attribute(value=e.args[0], attr=e.args[1].value, ctx=ast.Load())
+            else:
+                return e
+    from ..flow import clone
+    E = simp(clone(E))
+
+    class R(ast.NodeTransformer):
+        def visit_Name(self, n):
+            if n.id in actual and isinstance(n.ctx, ast.Load):
+                return clone(actual[n.id])
+            return n
+    return CT(U(ast.fix_missing_locations(R().visit(E))))
